@@ -30,6 +30,13 @@ pub struct Scenario {
 
 thread_local! {
     static PANICS: RefCell<Vec<String>> = const { RefCell::new(Vec::new()) };
+    static AFTER_TEARDOWN: RefCell<Vec<Box<dyn FnOnce()>>> = const { RefCell::new(Vec::new()) };
+}
+
+/// Register work (and values to keep alive) for after the runtime of this run has been dropped:
+/// "tearing down the runtime with handles still alive".
+pub fn after_runtime_teardown(f: Box<dyn FnOnce()>) {
+    AFTER_TEARDOWN.with(|a| a.borrow_mut().push(f));
 }
 
 pub fn install_panic_hook() {
@@ -52,6 +59,7 @@ pub fn peek_panics() -> usize {
 pub fn execute(scen: &'static Scenario, input: RunInput) -> RunOutput {
     let seed = input.seed;
     take_panics();
+    AFTER_TEARDOWN.with(|a| a.borrow_mut().clear());
     anemo::verif::set_active(true);
     let rt = tokio::runtime::Builder::new_current_thread()
         .enable_time()
@@ -74,7 +82,13 @@ pub fn execute(scen: &'static Scenario, input: RunInput) -> RunOutput {
             }
         })
     }));
-    let dropped = std::panic::catch_unwind(std::panic::AssertUnwindSafe(move || drop(rt)));
+    let dropped = std::panic::catch_unwind(std::panic::AssertUnwindSafe(move || {
+        drop(rt);
+        let after: Vec<Box<dyn FnOnce()>> = AFTER_TEARDOWN.with(|a| std::mem::take(&mut *a.borrow_mut()));
+        for f in after {
+            f();
+        }
+    }));
     anemo::verif::set_active(false);
     let panics = take_panics();
     let mut out = match result {
@@ -565,6 +579,12 @@ pub fn minimise(scen: &'static Scenario, tier: Tier, seed: u64, v: &Violation) -
     for (name, val, lo, _hi) in params {
         if steps >= budget {
             break;
+        }
+        // the strict/relaxed decision of a scenario must stay consistent with the faults that
+        // still fire in explicit mode
+        let explicit_faults = matches!(&best.faults, FaultMode::Explicit(s) if !s.is_empty());
+        if explicit_faults && (name == "lossy" || name == "faulty") {
+            continue;
         }
         let mut cur = *best.overrides.get(&name).unwrap_or(&val);
         let mut candidates = vec![lo];
